@@ -1,7 +1,9 @@
 package rest
 
 import (
+	"errors"
 	"net/http"
+	"sync"
 	"time"
 
 	"github.com/gorilla/websocket"
@@ -25,6 +27,9 @@ const (
 
 	// Maximum message size allowed from peer.
 	maxMessageSizeV1 = 512
+
+	// Events queued for a client beyond the replayed history before it is considered too slow.
+	queueLenV1 = 100
 )
 
 // options for gorilla connection upgrader
@@ -38,6 +43,8 @@ type msgListenerV1 struct {
 	hub     *msghub.Hub                // Global message hub
 	c       chan event.MessageMetadata // Queue of messages from Receive()
 	mailbox string                     // Name of mailbox to monitor, "" == all mailboxes
+	done    chan struct{}              // Closed when the listener shuts down; c is never closed.
+	once    sync.Once                  // Guards done.
 }
 
 // newMsgListenerV1 creates a listener and registers it.  Optional mailbox parameter will restrict
@@ -45,8 +52,9 @@ type msgListenerV1 struct {
 func newMsgListenerV1(hub *msghub.Hub, mailbox string) *msgListenerV1 {
 	ml := &msgListenerV1{
 		hub:     hub,
-		c:       make(chan event.MessageMetadata, 100),
+		c:       make(chan event.MessageMetadata, queueLenV1+hub.HistoryLen()),
 		mailbox: mailbox,
+		done:    make(chan struct{}),
 	}
 	hub.AddListener(ml)
 	return ml
@@ -58,8 +66,33 @@ func (ml *msgListenerV1) Receive(msg event.MessageMetadata) error {
 		// Did not match the watched mailbox name.
 		return nil
 	}
-	ml.c <- msg
-	return nil
+	return ml.enqueue(msg)
+}
+
+// errListenerGone tells the hub to drop this listener: it was closed, or its client is not
+// keeping up.
+var errListenerGone = errors.New("websocket listener closed or too slow")
+
+// enqueue queues msg for the socket writer without ever blocking the hub.
+func (ml *msgListenerV1) enqueue(msg event.MessageMetadata) error {
+	select {
+	case <-ml.done:
+		return errListenerGone
+	default:
+	}
+	select {
+	case ml.c <- msg:
+		return nil
+	default:
+		// Queue full: the client is not keeping up.  Drop it rather than stall everyone else.
+		ml.shutdown()
+		return errListenerGone
+	}
+}
+
+// shutdown tells the socket writer to finish; safe to call more than once, from any goroutine.
+func (ml *msgListenerV1) shutdown() {
+	ml.once.Do(func() { close(ml.done) })
 }
 
 // Delete handles a deleted message.
@@ -132,6 +165,13 @@ func (ml *msgListenerV1) WSWriter(conn *websocket.Conn) {
 				// Write failed
 				return
 			}
+		case <-ml.done:
+			// msgListener closed, exit
+			if err := conn.SetWriteDeadline(time.Now().Add(writeWaitV1)); err != nil {
+				slog.Warn().Err(err).Msg("Failed to set write deadline for close")
+			}
+			_ = conn.WriteMessage(websocket.CloseMessage, []byte{})
+			return
 		case <-ticker.C:
 			// Send ping
 			if err := conn.SetWriteDeadline(time.Now().Add(writeWaitV1)); err != nil {
@@ -148,13 +188,8 @@ func (ml *msgListenerV1) WSWriter(conn *websocket.Conn) {
 
 // Close removes the listener registration
 func (ml *msgListenerV1) Close() {
-	select {
-	case <-ml.c:
-		// Already closed
-	default:
-		ml.hub.RemoveListener(ml)
-		close(ml.c)
-	}
+	ml.shutdown()
+	ml.hub.RemoveListener(ml)
 }
 
 // MonitorAllMessagesV1 is a web handler which upgrades the connection to a websocket and notifies
